@@ -136,9 +136,20 @@ def dispatch(ctx, cr):
 
         class HC(ai.Hooks):
             def call(self, a, st, term, callee, args):
-                if M.norm_path(callee.get("decl", "")).endswith("eval_context::Callable::call") and callee.get("self") is not None:
-                    targets.add(cr.ty_adt(callee["self"]))
-                    return [(("sym", "R"), st.mon)]
+                if M.norm_path(callee.get("decl", "")).endswith("eval_context::Callable::call"):
+                    tgt = cr.ty_adt(callee["self"]) if callee.get("self") is not None else None
+                    if tgt is None and args:
+                        # `let f: &dyn Callable = match self { .. => &XFunction, .. }; f.call(args)`: the receiver value names the struct
+                        v = a.resolve(st, args[0])
+                        n_ = 0
+                        while v[0] == "ref" and n_ < 4:
+                            v = a.resolve(st, a.read_at(st, v[1], v[2]))
+                            n_ += 1
+                        if v[0] == "enum":
+                            tgt = v[1]
+                    if tgt is not None:
+                        targets.add(tgt)
+                        return [(("sym", "R"), st.mon)]
                 return None
         if dkey in cr.fns:
             a = ai.AI(cr, HC())
@@ -513,6 +524,66 @@ def always_called(ctx, cr):
            else "%d Ok paths, all through FunctionName::call" % len(oks), fn=f)
 
 
+def results_are_resolved(ctx, cr):
+    """what a function call yields enters the evaluation as query results of ONE kind (Resolved), whatever its arguments were: the
+    comparison operators treat Literal and Resolved operands differently (a scalar against a literal one-element list is compared with the
+    element), so `f('x')` would otherwise stop behaving like the same value read from the document."""
+    rule = "R-C18-dispatch"
+    key = "rules::eval_context::resolve_function"
+    f = cr.fns.get(key)
+    QRT = "rules::QueryResult"
+    if not f or QRT not in cr.adts:
+        ctx.lost(rule, rule + ":results-are-resolved", key)
+        return
+    vn = [v["name"] for v in cr.adts[QRT]["variants"]]
+    # from the returned value back to (and not beyond) the call of the function itself: what the ARGUMENTS are wrapped as is not the point
+    calls, consts, locs = flow.backward_slice(f, 0, stop=lambda c: M.norm_path(c["fn"].get("decl", "")).endswith(("Callable::call", "FunctionName::call")) or
+                                              M.norm_path(c["fn"].get("path", "")).endswith("FunctionName::call"))
+    kinds = set()
+    # constructor fn items and closures on the slice of the return value
+    def scan_consts(o, body):
+        if isinstance(o, dict):
+            kk = o.get("k")
+            if isinstance(kk, dict) and "ty" in kk:
+                t = cr.types[kk["ty"]]
+                if t["k"] == "fndef":
+                    pth = M.norm_path(t.get("p", ""))
+                    if pth.startswith(QRT + "::"):
+                        kinds.add(pth.split("::")[-1])
+            for v in o.values():
+                scan_consts(v, body)
+        elif isinstance(o, list):
+            for v in o:
+                scan_consts(v, body)
+    arg_closures = set()
+    for c in calls:
+        d = M.norm_path(c["fn"].get("decl", ""))
+        if d in ("std::iter::Iterator::try_fold", "std::iter::Iterator::fold"):
+            # the fold that builds the ARGUMENTS (literals are wrapped as Literal there, by design)
+            for x in c["args"]:
+                pl = M.op_place(x)
+                dd = c08.def_of_local(f, pl) if isinstance(pl, int) else None
+                if dd and dd[0] == "stmt" and dd[2]["rv"].get("ak") == "closure":
+                    arg_closures.add(dd[2]["rv"]["key"])
+            continue
+        scan_consts(c["args"], f)
+        for x in c["args"]:
+            pl = M.op_place(x)
+            dd = c08.def_of_local(f, pl) if isinstance(pl, int) else None
+            if dd and dd[0] == "stmt" and dd[2]["rv"].get("ak") == "closure" and dd[2]["rv"]["key"] not in arg_closures:
+                body = cr.fns.get(dd[2]["rv"]["key"])
+                for bi, si, st in M.iter_stmts(body) if body else []:
+                    rv = st.get("rv")
+                    if rv and rv.get("r") == "agg" and rv.get("adt") == QRT:
+                        kinds.add(vn[rv["vi"]])
+    for bi, si, st in M.iter_stmts(f):
+        rv = st.get("rv")
+        if rv and rv.get("r") == "agg" and rv.get("adt") == QRT and isinstance(st["p"], int) and st["p"] in locs:
+            kinds.add(vn[rv["vi"]])
+    ctx.ob(rule, rule + ":results-are-resolved", kinds == {"Resolved"}, ("the values a function call yields are wrapped as %s: a call with literal arguments no longer compares like the same value read from the document" % sorted(kinds)) if kinds != {"Resolved"}
+           else "the values a function call yields are wrapped as Resolved only", fn=f)
+
+
 def per_element_state(ctx, cr):
     """element-wise functions compute each element from that element alone: a buffer that is written inside the per-element loop and
     ends up in the element's result is created inside the loop (a buffer hoisted out of the loop and not cleared makes result k depend
@@ -551,6 +622,32 @@ def per_element_state(ctx, cr):
                     continue
                 defs = [b2 for b2, t2 in M.iter_calls(f) if isinstance(t2["dest"], int) and t2["dest"] == l] + [b2 for b2, s2, st2 in M.iter_stmts(f) if st2.get("p") == l and "rv" in st2]
                 if defs and not any(b2 in body for b2 in defs):
+                    # carried state is harmless when nothing written to it inside the loop depends on the current element (a value
+                    # computed once from loop-invariant inputs and cached, e.g. a lazily compiled regex)
+                    item = f["blocks"][header]["term"].get("dest")
+                    aliases, frontier = {l}, [l]
+                    while frontier:
+                        x = frontier.pop()
+                        for b2, s2, st2 in M.iter_stmts(f):
+                            rv2 = st2.get("rv")
+                            # only MUTABLE borrows (and moves of them) can write: `regex.captures_iter(val)` through `&compiled` does not
+                            if rv2 and ((rv2["r"] == "ref" and rv2.get("m")) or (rv2["r"] == "use" and x != l)) and isinstance(st2["p"], int) and M.place_local(rv2.get("p") if rv2["r"] == "ref" else (M.op_place(rv2["o"]) or -1)) == x and st2["p"] not in aliases:
+                                aliases.add(st2["p"])
+                                frontier.append(st2["p"])
+                    depends = False
+                    for b2, t2 in M.iter_calls(f):
+                        if b2 not in body or b2 == header:
+                            continue
+                        arg_locals = [M.place_local(M.op_place(x)) for x in t2["args"] if M.op_place(x) is not None]
+                        if any(al in aliases for al in arg_locals):
+                            for al in arg_locals:
+                                if al in aliases:
+                                    continue
+                                _c, _k, locs2 = flow.backward_slice(f, al)
+                                if isinstance(item, int) and item in locs2:
+                                    depends = True
+                    if not depends:
+                        continue
                     bad.append("`%s` is created before the loop, written inside it and flows into the pushed element" % names.get(l))
         n += 1
         ctx.ob(rule, "%s:%s:per-element-state" % (rule, impl), not bad, "; ".join(sorted(set(bad))) or "no buffer is carried from one element to the next", fn=f)
@@ -644,6 +741,7 @@ def run(ctx):
     value_paths(ctx, cr)
     converter_casts(ctx, cr)
     always_called(ctx, cr)
+    results_are_resolved(ctx, cr)
     per_element_state(ctx, cr)
     ctx.assumptions += [
         "the values computed by str::to_uppercase, str::parse, urlencoding::decode, serde_json, chrono, fancy_regex are those primitives' (not analysed)",
